@@ -2,6 +2,7 @@ package yqlib
 
 import (
 	"container/list"
+	"strings"
 
 	yaml "gopkg.in/yaml.v3"
 )
@@ -761,4 +762,85 @@ func VerifC03SameSpelledKeys() {
 		verifAssert(ok, "C03/update-of-every-value-misses-an-entry same-spelled-keys")
 	}
 	verifCover("C03/same-spelled/end")
+}
+
+// VerifC03DeleteDecodedJSON: del on documents as the JSON decoder builds them (its own code sets keys and parents):
+// arrays of three slots drawn from {1, null, "s", 2}, at the root and under a key; selections by index, by two
+// indices, by value (null included): exactly the selected elements are gone.
+func VerifC03DeleteDecodedJSON() {
+	slots := []string{"1", "null", "\"s\"", "2"}
+	dumps := []string{"<!!int 1>", "<!!null null>", "<!!str s>", "<!!int 2>"}
+	var pick [3]int
+	text := "["
+	for i := 0; i < 3; i++ {
+		pick[i] = verifChoice("e"+verifItoa(int64(i)), len(slots))
+		if i > 0 {
+			text += ","
+		}
+		text += slots[pick[i]]
+	}
+	text += "]"
+	nested := verifChoice("nested", 2) == 1
+	prefix := "."
+	if nested {
+		text = "{\"a\":" + text + ",\"z\":null}"
+		prefix = ".a"
+	}
+	dec := NewJSONDecoder()
+	if dec.Init(strings.NewReader(text)) != nil {
+		verifFail("C03/decoder-init")
+	}
+	doc, err := dec.Decode()
+	if err != nil {
+		verifFail("C03/json-decode-failed")
+		return
+	}
+	var gone [3]bool
+	var sel string
+	switch verifChoice("selection", 4) {
+	case 0:
+		i := verifChoice("i", 3)
+		gone[i] = true
+		sel = prefix + "[" + verifItoa(int64(i)) + "]"
+	case 1:
+		i, j := verifChoice("i", 3), verifChoice("j", 3)
+		gone[i], gone[j] = true, true
+		sel = prefix + "[" + verifItoa(int64(i)) + "], " + prefix + "[" + verifItoa(int64(j)) + "]"
+	case 2:
+		for i := 0; i < 3; i++ {
+			gone[i] = pick[i] == 1
+		}
+		sel = prefix + "[] | select(. == null)"
+	default:
+		for i := 0; i < 3; i++ {
+			gone[i] = pick[i] == 0
+		}
+		sel = prefix + "[] | select(. == 1)"
+	}
+	res, err := vEval(vParse("del("+sel+")"), doc)
+	label := "decoded-json sel=" + sel
+	verifAssert(err == nil && res.Len() == 1, "C03/del-error "+label)
+	if err != nil || res.Len() != 1 {
+		return
+	}
+	want := "["
+	first := true
+	for i := 0; i < 3; i++ {
+		if gone[i] {
+			continue
+		}
+		if !first {
+			want += ", "
+		}
+		first = false
+		want += dumps[pick[i]]
+	}
+	want += "]"
+	if nested {
+		want = "{<!!str a>: " + want + ", <!!str z>: <!!null null>}"
+	}
+	got := vDump(res.Front().Value.(*CandidateNode))
+	verifObserve("got", got)
+	verifAssert(got == want, "C03/exactly-the-selection "+label)
+	verifCover("C03/decoded-json/end")
 }
